@@ -30,9 +30,10 @@ CONSTANTS
   MaxUserCalls = 3
   InstallKinds = {"jump"}
   Faults = {}
+  SiteReuse = TRUE
   MaxLives = 3
   Gates = {"ok"}
-  MaxInstalls = 1
+  MaxInstalls = 2
 CONSTRAINT CanonDrop
 INVARIANT Emit
 CHECK_DEADLOCK FALSE
